@@ -444,6 +444,64 @@ impl<'u> Tr<'u> {
         Ok(f)
     }
 
+    /// the value of `Default::default()` for a type whose Default is derived
+    fn default_of(&mut self, t: &Ty, sp: Span) -> R<G> {
+        Ok(match t {
+            Ty::N | Ty::Duration => raw("0%N"),
+            Ty::Z => raw("0%Z"),
+            Ty::Bool => raw("false"),
+            Ty::Unit | Ty::Never => raw("tt"),
+            Ty::Option(_) => raw("None"),
+            Ty::Enum(n) | Ty::Struct(n) => raw(self.ensure_default(n, sp)?),
+            _ => return self.err(sp, format!("Default of {}", t.coq())),
+        })
+    }
+
+    /// `T_default : T` for `#[derive(Default)]` (a struct: field by field; an enum: the variant marked `#[default]`)
+    fn ensure_default(&mut self, name: &str, sp: Span) -> R<String> {
+        let f = format!("{name}_default");
+        if self.helpers.contains(&f) {
+            return Ok(f);
+        }
+        let u = self.u;
+        let text;
+        if let Some(v) = u.structs.get(name) {
+            let at = &v[0];
+            if !derives(&at.item.attrs).contains("Default") {
+                return self.err(sp, format!("`{name}::default()`: `{name}` does not derive Default (and has no `default` in the listed files)"));
+            }
+            let ri = self.rec_info(name).clone();
+            if ri.view {
+                return self.err(sp, format!("Default of the view `{name}`"));
+            }
+            let mut parts = vec![format!("mk_{name}")];
+            for (_, _, t) in &ri.fields {
+                let g = self.default_of(t, sp)?;
+                parts.push(g.atom(0));
+            }
+            text = format!("Definition {f} : {name} := {}.", parts.join(" "));
+        } else if let Some(v) = u.enums.get(name) {
+            let at = &v[0];
+            if !derives(&at.item.attrs).contains("Default") {
+                return self.err(sp, format!("`{name}::default()`: `{name}` does not derive Default"));
+            }
+            let dv = at.item.variants.iter().find(|v| v.attrs.iter().any(|a| a.path().is_ident("default")));
+            let dv = match dv {
+                Some(v) if matches!(v.fields, Fields::Unit) => v.ident.to_string(),
+                _ => return self.err(sp, format!("no unit variant of `{name}` is marked #[default]")),
+            };
+            if !self.enum_info(name).variants.iter().any(|v| v.name == dv) {
+                return self.err(sp, format!("the default variant of `{name}` is not part of the translated enum"));
+            }
+            text = format!("Definition {f} : {name} := {name}_{dv}.");
+        } else {
+            return self.err(sp, format!("Default of `{name}`"));
+        }
+        self.helpers.insert(f.clone());
+        self.emit(&f, text, format!("derive(Default) on {name}"));
+        Ok(f)
+    }
+
     /// `T_set_f (v : ty) (s : T) : T`
     fn ensure_setter(&mut self, sname: &str, field: &str, sp: Span) -> R<(String, Ty)> {
         let ri = self.rec_info(sname).clone();
@@ -454,7 +512,12 @@ impl<'u> Tr<'u> {
             Some(x) => x.clone(),
             None => return self.err(sp, format!("no field `{field}` in `{sname}`")),
         };
-        let f = format!("{sname}_set_{field}");
+        // (a Rust method of that name, e.g. a builder's `set_x`, keeps the name)
+        let f = if self.u.methods.contains_key(&(sname.to_owned(), format!("set_{field}"))) {
+            format!("{sname}_assign_{field}")
+        } else {
+            format!("{sname}_set_{field}")
+        };
         if !self.helpers.contains(&f) {
             let xs: Vec<String> = (0..ri.fields.len()).map(|i| format!("x{i}")).collect();
             let ys: Vec<String> = ri
